@@ -645,7 +645,12 @@ z3::expr uf_apply(int op, const z3::expr& x, const z3::expr* y = nullptr)
         if (y) add_pc(z3::implies(x == a.arg && *y == a.arg2, v == a.val));
         else add_pc(z3::implies(x == a.arg, v == a.val));
         if (!y && uf_increasing(op)) add_pc(z3::implies(x < a.arg, v < a.val) && z3::implies(x > a.arg, v > a.val));
-        if (op == U_EXP) add_pc(v >= a.val * (one + x - a.arg) && a.val >= v * (one + a.arg - x));
+        if (op == U_EXP)
+        {
+            add_pc(v >= a.val * (one + x - a.arg) && a.val >= v * (one + a.arg - x));
+            z3::expr sum = (x + a.arg).simplify();
+            if (sum.is_numeral() && sum.get_decimal_string(3) == "0") add_pc(v * a.val == one); // exp(u) * exp(-u) = 1
+        }
         if (op == U_LOG) add_pc(v <= a.val + (x - a.arg) / a.arg && a.val <= v + (a.arg - x) / x);
         if (op == U_LOG1P) add_pc(v <= a.val + (x - a.arg) / (one + a.arg) && a.val <= v + (a.arg - x) / (one + x));
     }
@@ -1518,6 +1523,61 @@ double sym_model_value(double a)
     {
         return std::nan("");
     }
+}
+static void collect_atoms(const z3::expr& e, std::map<unsigned, bool>& seen, std::vector<z3::expr>& out)
+{
+    if (seen.count(e.id())) return;
+    seen[e.id()] = true;
+    if (!e.is_app()) return;
+    const auto k = e.decl().decl_kind();
+    if ((k == Z3_OP_LE || k == Z3_OP_GE || k == Z3_OP_LT || k == Z3_OP_GT || k == Z3_OP_EQ) && e.num_args() == 2 && e.arg(0).is_arith())
+        out.push_back(e.arg(0) != e.arg(1));
+    for (unsigned i = 0; i < e.num_args(); ++i) collect_atoms(e.arg(i), seen, out);
+}
+void sym_check_deriv(double value, const char* name, double grad, const char* lab)
+{
+    if (concrete_mode) return;
+    if (special(value) || special(grad))
+    {
+        ensure_model();
+        report_violation(lab, mdl.get(), "non-finite value or gradient", false);
+    }
+    z3::expr dv = C->real_val(0);
+    {
+        std::map<unsigned, z3::expr> memo;
+        if (isbox(value))
+        {
+            for (auto& kv : *sqrt_defs)
+            {
+                z3::expr s  = C->real_const(kv.first.c_str());
+                z3::expr dx = deriv((*terms)[kv.second], name, memo);
+                memo.emplace(s.id(), dx / (2 * s));
+            }
+            dv = deriv(ex(value), name, memo);
+        }
+    }
+    z3::expr g = ex(grad);
+    // genericity: strict versions of all comparison atoms of the path condition and of the ite conditions in the terms
+    std::map<unsigned, bool> seen;
+    std::vector<z3::expr>    generic;
+    for (auto& c : *pc) collect_atoms(c, seen, generic);
+    if (isbox(value)) collect_atoms(ex(value), seen, generic);
+    collect_atoms(g, seen, generic);
+    collect_atoms(dv, seen, generic);
+    z3::expr assume = C->bool_val(true);
+    for (auto& a : generic) assume = assume && a;
+    z3::expr scale = (1 + absx(dv) + absx(g));
+    z3::expr tneg  = assume && (absx(dv - g) > C->real_val(1, 1000000000) * scale);
+    z3::expr mneg  = assume && (absx(dv - g) > C->real_val(1, 1000) * scale);
+    obligation(z3::implies(assume, dv == g), &mneg, lab, &tneg);
+}
+int sym_concrete(void)
+{
+    return concrete_mode ? 1 : 0;
+}
+int sym_uf_count(void)
+{
+    return concrete_mode ? 0 : static_cast<int>(ufapps->size());
 }
 double sym_deriv(double a, const char* name)
 {
